@@ -344,12 +344,20 @@ ASSUME = ['a user-provided file at the target name is left alone with exit 0 (C1
 
 def main(tier):
     rnd = random.Random(common.seed())
-    col = Collector(PROP, tier, 'exploration', RULE, ASSUME, floor=20)
+    from .. import faults as _f
+    col = Collector(PROP, tier, 'exploration', RULE + _f.LAYER_RULE % _f.LAYER_JUDGED[PROP], ASSUME, floor=20)
     its = items(tier, rnd)
     deadline = time.time() + (70 if tier == 'quick' else 700)
     for r in common.pmap(case, its, deadline=deadline):
         col.add(r)
-    rc = col.finish(exhaustive=(time.time() < deadline))
+    exhaustive = time.time() < deadline
+    from .. import faults
+    common.ensure_built()
+    fn, fits, cov = faults.layer(PROP, tier, rnd)
+    d2 = time.time() + (40 if tier == 'quick' else 600)
+    for r in common.pmap(fn, fits, deadline=d2):
+        col.add(r)
+    rc = col.finish(extra_coverage=cov, exhaustive=(exhaustive and time.time() < d2))
     common.cleanup_scratch()
     return rc
 
@@ -357,6 +365,9 @@ def main(tier):
 def replay(path):
     import json
     d = json.load(open(path))
+    if d['replay'].get('kind') == 'io-fault':
+        from .. import faults
+        return faults.replay(PROP, path)
     common.ensure_built()
     r = case(tuple(d['replay']['item']))
     print(r.get('verdict'), r.get('violations'))
